@@ -965,7 +965,7 @@ class Gen(object):
                     blk = self.r.obj(ph)._parent
                     local = set(x.name for x in getattr(blk, {"DataArray": "data_arrays", "Tag": "tags", "DataFrame": "data_frames",
                                                              "MultiTag": "multi_tags", "Source": "sources"}[want]))
-                    foreign = [i for i in xs if getattr(self.r.obj(i), "_parent", None) is not blk
+                    foreign = [i for i in xs if getattr(getattr(self.r.obj(i), "_parent", None), "id", None) != blk.id
                                and self.r.obj(i).name in local]
                     if foreign:
                         return ("append", ph, l, rnd.choice(foreign))
@@ -1011,7 +1011,19 @@ class Gen(object):
                     return None
                 if r == "RExtents" and rnd.random() < 0.3:
                     return ("set_link", rnd.choice(owners), r, None)
-                return ("set_link", rnd.choice(owners), r, rnd.choice(das))
+                ph = rnd.choice(owners)
+                if rnd.random() < 0.3:
+                    # adversarial: an array of ANOTHER block whose name also exists in the multi-tag's block
+                    try:
+                        blk = self.r.obj(ph)._parent
+                        local = set(x.name for x in blk.data_arrays)
+                        foreign = [i for i in das if getattr(getattr(self.r.obj(i), "_parent", None), "id", None) != blk.id
+                                   and self.r.obj(i).name in local]
+                        if foreign:
+                            return ("set_link", ph, r, rnd.choice(foreign))
+                    except Exception:
+                        pass
+                return ("set_link", ph, r, rnd.choice(das))
             if r == "RFeatureData":
                 owners = self.live(["Feature"])
                 das = self.live(["DataArray"])
@@ -1168,6 +1180,15 @@ class Gen(object):
         for i, (k, o, eid) in enumerate(self.r.handles):
             if k != "File" and eid not in idsnow:
                 self.dead.add(i)
+            elif k != "File" and i not in self.dead and self.kept:
+                # ids are ambiguous once a kept-id copy exists: a deleted entity may have a living twin of the same id.
+                # The object itself tells: an HDF5 object whose last link is gone has no name any more.
+                try:
+                    h5 = o._h5dataset.dataset if k == "Property" else o._h5group.group
+                    if h5 is None or h5.name is None:
+                        self.dead.add(i)
+                except Exception:
+                    self.dead.add(i)
 
 
 def gen_history(seed, length, profile, workdir, with_times, k):
